@@ -102,6 +102,14 @@ def gen(rng, tier):
         yield {"kind": "patch", "mode": True, "ops": [["test", "/a/" + tok, 1], ["remove", "/a/" + tok]], "doc": {"a": [1, 2]}}
         yield {"kind": "patch", "mode": True, "ops": [["copy", "/a/" + tok, "/b"]], "doc": {"a": [1, 2]}}
         yield {"kind": "patch", "mode": True, "ops": [["replace", "/" + tok, 1]], "doc": [1, 2]}
+    # the non-standard key tokens as the LAST token of every operation kind, on objects that have the member they name
+    for tok in ("~a", "#a", "~0a", "#b", "~", "#"):
+        for doc in ({"a": 1, "b": {"a": 2}}, {"a": [1], "~a": 2}, {"": 0, "b": {"": 1}}):
+            for pre in ("", "/b"):
+                p_ = pre + "/" + tok
+                for ops in ([["remove", p_]], [["move", p_, "/z"]], [["copy", p_, "/z"]], [["replace", p_, 9]], [["test", p_, "a"]], [["add", p_, 9]],
+                            [["move", "/a", p_]], [["test", "/a", 1], ["remove", p_]]):
+                    yield {"kind": "patch", "mode": True, "ops": ops, "doc": doc}
     # corner slices (zero step, steps and bounds of either sign beyond the array) through every evaluation route
     for q in ("$[::0]", "$.a[1:3:0]", "$..[::0]", "$.a[0, ::0, 2]", "$[?@[::0]]", "$[?!@[::0]]", "$..[5:-9:-3]", "$.a[-9:9:4]", "$[?count(@[::0]) == 0]",
               "$[::-0]", "$.a[::9007199254740991]"):
